@@ -506,7 +506,7 @@ def _m_drop(self, interp):
         names = columns if columns is not None else labels
         if columns is None and axis != 1:
             raise Undecided("DataFrame.drop of rows")
-        if isinstance(names, str):
+        if isinstance(names, (str, int)):
             names = [names]
         for n in names:
             if n not in self.cols:
@@ -736,6 +736,9 @@ def merge_frames(interp, left, right, how="inner", on=None, suffixes=("_x", "_y"
         raise Undecided("merge without on=")
     on = [on] if isinstance(on, str) else list(on)
     if left.axis.root is not right.axis.root:
+        lk, rk = isinstance(left.axis.root, KeySpace), isinstance(right.axis.root, KeySpace)
+        if lk != rk and how == "inner":
+            return _merge_group_with_units(interp, left if lk else right, right if lk else left, on, group_is_left=lk)
         raise Undecided("merge of frames over different universes")
     if len(left.axis.doms) != 1:
         left = left.flatten(interp)
@@ -813,8 +816,12 @@ def merge_frames(interp, left, right, how="inner", on=None, suffixes=("_x", "_y"
 
 
 def _m_agg(self, interp):
-    def agg(func=None, axis=0, **kw):
+    def agg(func=None, axis=0, *a2, **kw):
+        if a2:
+            raise Undecided("DataFrame.agg extra positional arguments")
         pm = getattr(func, "pyvc_method", None)
+        if axis == 1 and func is tuple or (axis == 1 and getattr(func, "__name__", "") == "tuple"):
+            return TupleCol(self, list(self.cols))
         if axis == 1 and pm and pm[1] == "join" and isinstance(pm[0], str):
             _use("DataFrame.agg(sep.join, axis=1): row-wise string join of the columns (TypeError if a cell is not a string, e.g. NaN)")
             cols = [self.col(c) for c in self.cols]
@@ -833,6 +840,65 @@ def _m_agg(self, interp):
         raise Undecided("DataFrame.agg form")
 
     return agg
+
+
+def _merge_group_with_units(interp, gf, uf, on, group_is_left):
+    """inner merge of a per-group frame with a per-unit frame on the group keys: the unit rows whose group is a row
+    of the group frame, carrying the group's columns"""
+    gs = gf.axis.root
+    if set(on) != set(gs.keys) or len(gf.axis.doms) != 1 or len(uf.axis.doms) != 1:
+        raise Undecided("group/unit merge form")
+    _use("merge(group frame, unit frame, how='inner', on=group keys): unit rows of the groups present in the group frame")
+    subs = []
+    nonnull = []
+    for k in gs.keys:
+        c = uf.col(k)
+        subs.append((gs.keyvars[k], c.t))
+        if c.nan is not None:
+            nonnull.append(z3.Not(c.nan))
+    inst = lambda t: z3.substitute(t, *subs)  # noqa: E731
+    dom = z3.And(uf.axis.doms[0], inst(gf.axis.doms[0]), *nonnull)
+    ax = RowAxis(uf.axis.root, [dom], ("merged", gf.axis.order, uf.axis.order))
+    out = Frame(ax, {}, ("range", ax.name), uf.idkey)
+    first, second = (gf, uf) if group_is_left else (uf, gf)
+    for fr in (first, second):
+        for name, c in fr.cols.items():
+            if name in out.cols:
+                continue
+            if isinstance(c, Poison):
+                out.cols[name] = c
+            elif fr is gf:
+                out.cols[name] = V(inst(c.t), (ax,), out.index, inst(c.nan) if c.nan is not None else None, None)
+            else:
+                out.cols[name] = V(c.t, (ax,), out.index, c.nan, c.inf)
+    return out
+
+
+class TupleCol:
+    """DataFrame[cols].agg(tuple, axis=1): the row's key tuple (only membership tests are modelled)"""
+
+    def __init__(self, frame, names):
+        self.frame = frame
+        self.names = list(names)
+
+    def pyvc_getattr(self, interp, name):
+        if name == "isin":
+
+            def isin(other):
+                if not isinstance(other, TupleCol) or other.names != self.names:
+                    raise Undecided("isin of key tuples over different columns")
+                _use("keys.agg(tuple,1).isin(other keys): the row's key tuple occurs among the other frame's rows")
+                of = other.frame
+                gs = keyspace(self.names, {k: of.col(k).t.sort() for k in self.names})
+                gb = GroupBy(of, self.names, interp)
+                segs = gb._group_dom(gs)
+                p = gb._present(gs, segs)
+                subs = [(gs.keyvars[k], self.frame.col(k).t) for k in self.names]
+                nn = [z3.Not(self.frame.col(k).nan) for k in self.names if self.frame.col(k).nan is not None]
+                return V(z3.And(z3.substitute(p, *subs), *nn), (self.frame.axis,), self.frame.index)
+
+            return isin
+        raise Undecided(f"key tuples .{name}")
 
 
 def _m_groupby(self, interp):
@@ -1093,6 +1159,40 @@ class GroupBy:
         raise Undecided(f"groupby(...).{name}")
 
 
+def presence_instances(ctx, root, point, rows=(), rounds=2):
+    """ghost instantiation of the definition  P(k) <=> some row r of the frame has key tuple k  of EVERY group
+    presence predicate over `root` at the key tuple `point` (a dict key name -> term; terms may mention the generic
+    row): (=>) a fresh witness row per predicate, (<=) at each of `rows`, the generic rows and all the witnesses.
+    Quantifier-free instances of the defining axiom -- sound; returns the witness rows."""
+    defs = [(p, member, r) for (p, member, r) in ctx.__dict__.get("_present_defs", {}).values() if r is root]
+    wits = []
+    cache = ctx.__dict__.setdefault("_presence_inst", {})
+    for p, member, r in defs:
+        kvs = [a for a in p.children()]
+        try:
+            subs = [(kv, point[str(kv)[3:]]) for kv in kvs]
+        except KeyError:
+            continue
+        key = (p.decl().name(), tuple(t.get_id() for _, t in subs))
+        if key in cache:
+            wits.append(cache[key])
+            continue
+        w = z3.Int(fresh_name("pwit"))
+        cache[key] = w
+        ctx.assume(z3.Implies(z3.substitute(p, *subs), z3.And(w >= 0, w < root.n, z3.substitute(member, (root.u, w), *subs))))
+        wits.append(w)
+    allrows = [root.u] + list(rows) + wits
+    for p, member, r in defs:
+        kvs = [a for a in p.children()]
+        try:
+            subs = [(kv, point[str(kv)[3:]]) for kv in kvs]
+        except KeyError:
+            continue
+        for row in allrows:
+            ctx.assume(z3.Implies(z3.And(row >= 0, row < root.n, z3.substitute(member, (root.u, row), *subs)), z3.substitute(p, *subs)))
+    return wits
+
+
 class GroupSize:
     def __init__(self, frame):
         self.frame = frame
@@ -1100,10 +1200,10 @@ class GroupSize:
     def pyvc_getattr(self, interp, name):
         if name == "reset_index":
 
-            def reset_index(drop=False, name="size", **kw):
+            def reset_index(drop=False, name=0, **kw):
+                # an unnamed size() Series becomes column 0 (pandas), or `name` if given
                 f = self.frame._new(index=("range", self.frame.axis.name))
-                if name != "size":
-                    f.cols[name] = f.cols.pop("size")
+                f.cols[name] = f.cols.pop("size")
                 return f
 
             return reset_index
